@@ -5,15 +5,15 @@ From PVGen Require PdPaths GenericTables.
 Import ListNotations.
 Local Open Scope string_scope.
 
-(* the document-typed paths of the live schema: every generated row is described by a row of FULL_TABLE (the hand-written rows of
-   the 18 known classes + a walking row per new class), every hand-written row still describes a generated row (no known class lost
-   or changed a document-capable path, or its accessor override where it has such paths), and a NEW class with document-capable paths
-   does not override the accessor *)
+(* the document-capable paths of the live schema: every generated row is described by its row of FULL_TABLE (PdFull.full_row: the
+   hand-written row for a class with an accessor override, a walking row with the LIVE paths otherwise), and every class this
+   development was written against is still modelled.  What can fail here: a class with an override gained or lost a
+   document-capable path (the override would not read it); a walking class, known or new, started to override the accessor while
+   it has such paths; a known class disappeared. *)
 Lemma pd_table_is_spec :
-  forallb (fun row => existsb (fun r => row_compat r row) FULL_TABLE) PdPaths.PD_TABLE = true /\
-  forallb (fun r => existsb (row_compat r) PdPaths.PD_TABLE) SPEC_TABLE = true /\
-  forallb (fun row => negb (fst (snd row)) || match snd (snd row) with [] => true | _ => false end) EXTRA_ROWS = true.
-Proof. split; [|split]; vm_compute; reflexivity. Qed.
+  forallb (fun row => row_compat (full_row row) row) PdPaths.PD_TABLE = true /\
+  forallb (fun r => existsb (fun row => String.eqb (c_type r) (fst row)) PdPaths.PD_TABLE) SPEC_TABLE = true.
+Proof. split; vm_compute; reflexivity. Qed.
 
 Lemma spec_table_covered : forallb covered FULL_TABLE = true.
 Proof. vm_compute. reflexivity. Qed.
@@ -24,19 +24,26 @@ Theorem typed_paths :
             forallb (path_covered r) paths = true.
 Proof.
   intros t ov paths H. destruct pd_table_is_spec as [F _]. rewrite forallb_forall in F. specialize (F _ H).
-  apply existsb_exists in F. destruct F as (r & Hr & E). apply row_compat_spec in E. destruct E as (E1 & E2 & E3).
-  exists r. split; [exact Hr|]. split; [exact E1|]. split; [exact E2|]. split; [exact E3|].
-  pose proof spec_table_covered as C. rewrite forallb_forall in C. specialize (C r Hr). unfold covered in C. rewrite E2 in C. exact C.
+  apply row_compat_spec in F. destruct F as (E1 & E2 & E3).
+  assert (Hr : In (full_row (t, (ov, paths))) FULL_TABLE) by (unfold FULL_TABLE; apply in_map; exact H).
+  exists (full_row (t, (ov, paths))). split; [exact Hr|]. split; [exact E1|]. split; [exact E2|]. split; [exact E3|].
+  pose proof spec_table_covered as C. rewrite forallb_forall in C. specialize (C _ Hr). unfold covered in C. rewrite E2 in C. exact C.
 Qed.
 
-(* the known classes are all still there, with the paths (and, where there are any, the override flag) this development was
-   written against *)
-Theorem known_rows_unchanged : forall r, In r SPEC_TABLE ->
-  exists ov, In (c_type r, (ov, c_paths r)) PdPaths.PD_TABLE /\ (ov = is_override (c_acc r) \/ c_paths r = []).
+(* the classes this development was written against are all still modelled *)
+Theorem known_rows_unchanged : forall r, In r SPEC_TABLE -> exists ov paths, In (c_type r, (ov, paths)) PdPaths.PD_TABLE.
 Proof.
-  intros r Hr. destruct pd_table_is_spec as (_ & F & _). rewrite forallb_forall in F. specialize (F _ Hr).
-  apply existsb_exists in F. destruct F as ([t [ov paths]] & Hg & E). apply row_compat_spec in E. destruct E as (E1 & E2 & E3).
-  exists ov. subst t paths. split; [exact Hg | exact E3].
+  intros r Hr. destruct pd_table_is_spec as (_ & F). rewrite forallb_forall in F. specialize (F _ Hr).
+  apply existsb_exists in F. destruct F as ([t [ov paths]] & Hg & E). apply String.eqb_eq in E. simpl in E. subst t.
+  exists ov, paths. exact Hg.
+Qed.
+(* ... and one with an accessor override still has exactly the document-capable paths its override reads *)
+Theorem override_rows_pinned : forall t ov paths r, In (t, (ov, paths)) PdPaths.PD_TABLE -> spec_row t = Some r -> c_acc r <> AWalk ->
+  paths = c_paths r.
+Proof.
+  intros t ov paths r H Hs Ha. destruct pd_table_is_spec as [F _]. rewrite forallb_forall in F. specialize (F _ H).
+  apply row_compat_spec in F. destruct F as (_ & E2 & _). unfold full_row in E2. simpl in E2. rewrite Hs in E2.
+  destruct (c_acc r) eqn:A; [contradiction Ha; reflexivity | symmetry; exact E2 | symmetry; exact E2].
 Qed.
 
 (* generic.AuxType: the alternatives and their order (the guards are pinned by Typed/AuxCheck.v for C18);
